@@ -25,6 +25,8 @@ Inductive sx :=
 | SBool (b : bool)
 | SStr (lexeme : str)
 | SParen (e : sx)
+| SList (es : list sx)                        (* [e, …] *)
+| SStruct (name : str) (fields : list (str * sx))   (* Name { f: e, … } *)
 | SCall (f : sx) (args : list sx)
 | SField (e : sx) (name : str)
 | SUPow (e : sx) (lexeme : str)
@@ -69,7 +71,8 @@ Definition binop_of (t : token) : binop :=
    12 `^`, 13 factorial, 14 unicode exponent, 15 call / field access, 16 primary *)
 Definition lvl (t : sx) : nat :=
   match t with
-  | SNum _ | SBased _ _ | SNaN | SInf | SIdent _ | SHole | SBool _ | SStr _ | SParen _ => 16
+  | SNum _ | SBased _ _ | SNaN | SInf | SIdent _ | SHole | SBool _ | SStr _ | SParen _
+  | SList _ | SStruct _ _ => 16
   | SCall _ _ | SField _ _ => 15
   | SUPow _ _ => 14
   | SFact _ _ => 13
@@ -92,6 +95,20 @@ Fixpoint pr (t : sx) : list token :=
   | SBool b => [if b then TTrue else TFalse]
   | SStr l => [TString l]
   | SParen e => TLParen :: pr e ++ [TRParen]
+  | SList es =>
+      TLBracket ::
+      (fix go (l : list sx) : list token :=
+         match l with
+         | [] => []
+         | a :: r => pr a ++ match r with [] => [] | _ :: _ => TComma :: go r end
+         end) es ++ [TRBracket]
+  | SStruct n fields =>
+      TIdent n :: TLCurly ::
+      (fix go (l : list (str * sx)) : list token :=
+         match l with
+         | [] => []
+         | (f, a) :: r => TIdent f :: TColon :: pr a ++ match r with [] => [] | _ :: _ => TComma :: go r end
+         end) fields ++ [TRCurly]
   | SCall f args =>
       pr f ++ TLParen ::
       (fix go (l : list sx) : list token :=
@@ -118,6 +135,12 @@ Fixpoint pr_args (args : list sx) : list token :=
   | a :: r => pr a ++ match r with [] => [] | _ :: _ => TComma :: pr_args r end
   end.
 
+Fixpoint pr_fields (fields : list (str * sx)) : list token :=
+  match fields with
+  | [] => []
+  | (f, a) :: r => TIdent f :: TColon :: pr a ++ match r with [] => [] | _ :: _ => TComma :: pr_fields r end
+  end.
+
 Fixpoint desugar (t : sx) : expr :=
   match t with
   | SNum l => EScalar (remove_underscores l)
@@ -129,6 +152,8 @@ Fixpoint desugar (t : sx) : expr :=
   | SBool b => EBool b
   | SStr l => EString (strip_and_escape l)
   | SParen e => desugar e
+  | SList es => EList (map desugar es)
+  | SStruct n fields => EStruct n (map (fun fe => (fst fe, desugar (snd fe))) fields)
   | SCall f args => ECall (desugar f) (map desugar args)
   | SField e n => EField (desugar e) n
   | SUPow e l => EBin Power (desugar e) (EScalarExp (unicode_exponent_to_int l))
@@ -170,6 +195,8 @@ Fixpoint wf (t : sx) : bool :=
   | SNum _ | SNaN | SInf | SIdent _ | SHole | SBool _ | SStr _ => true
   | SBased b l => negb (i128_overflow (radix_value b (tl (tl l))))
   | SParen e => wf e
+  | SList es => forallb wf es
+  | SStruct _ fields => forallb (fun fe => wf (snd fe)) fields
   | SCall f args => wf f && (15 <=? lvl f) && forallb wf args
   | SField e _ => wf e && (15 <=? lvl e)
   | SUPow e _ => wf e && (15 <=? lvl e)
@@ -227,7 +254,8 @@ Fixpoint min_paren (e : expr) : sx :=
   | ECall f args => SCall (at_level 15 (min_paren f)) (map min_paren args)
   | EField a n => SField (at_level 15 (min_paren a)) n
   | EIf c t f => SIf (at_level 2 (min_paren c)) (at_level 1 (min_paren t)) (at_level 1 (min_paren f))
-  | EList _ | EStruct _ _ => SHole           (* not in the surface type; excluded by `printable` *)
+  | EList es => SList (map min_paren es)
+  | EStruct n fields => SStruct n (map (fun fe => (fst fe, min_paren (snd fe))) fields)
   end.
 
 (* the abstract trees `min_paren` is specified for *)
@@ -247,5 +275,6 @@ Fixpoint printable (e : expr) : bool :=
   | ECall f args => printable f && forallb printable args
   | EField a _ => printable a
   | EIf c t f => printable c && printable t && printable f
-  | EList _ | EStruct _ _ => false
+  | EList es => forallb printable es
+  | EStruct _ fields => forallb (fun fe => printable (snd fe)) fields
   end.
